@@ -98,6 +98,45 @@ def l2_scenarios(rng, n):
     return scns
 
 
+def extreme_range_texts(rng, n):
+    """hunks whose ranges are written with extreme numbers, forwards and backwards (end before start), in the three grammars,
+    followed by exactly the lines their commands announce (none for a side whose count comes out negative): these get past
+    the parser and into the arithmetic of the applier"""
+    out = []
+    E = [0, 1, 2, 3, 5, 7, 2**63 - 1, 2**63 - 2, 2**63 - 3, 2**62]
+    def side(lo, hi, mark):
+        c = hi - lo + 1
+        return b"".join(mark + b" l%d\n" % i for i in range(c)) if 0 < c <= 6 else (b"" if c <= 0 else None)
+    while len(out) < n:
+        a, b = rng.choice(E), rng.choice(E)
+        c = rng.choice([0, 1, 5, 2**63 - 1]); d = c + rng.randint(-2, 3) if rng.random() < 0.7 else rng.choice(E)
+        d = max(0, min(d, 2**63 - 1))
+        cmd = rng.choice("ccad")
+        if cmd == "c":
+            o_, n_ = side(a, b, b"<"), side(c, d, b">")
+            if o_ is None or n_ is None:
+                continue
+            t = b"%d,%dc%d,%d\n" % (a, b, c, d) + o_ + (b"---\n" if o_ and n_ else b"") + n_
+        elif cmd == "a":
+            n_ = side(c, d, b">")
+            if n_ is None:
+                continue
+            t = (b"%da%d,%d\n" % (a, c, d) if rng.random() < 0.7 else b"%d,%da%d,%d\n" % (a, b, c, d)) + n_
+        else:
+            o_ = side(a, b, b"<")
+            if o_ is None:
+                continue
+            t = (b"%d,%dd%d\n" % (a, b, c) if rng.random() < 0.7 else b"%dd%d,%d\n" % (a, c, d)) + o_
+        if rng.random() < 0.2:
+            t = rng.choice([
+                (b"--- f\n+++ f\n@@ -%d,%d +%d,%d @@\n" % (a, rng.choice([0, 1, 2]), c, rng.choice([0, 1, 2]))) + b"-a\n+b\n c\n",
+                (b"*** f\n--- f\n***************\n*** %d,%d ****\n- a\n--- %d,%d ----\n+ b\n" % (a, b, c, d))])
+        if rng.random() < 0.5:
+            t = t + t       # a second hunk: the offsets accumulated by the first come into play
+        out.append(t)
+    return out
+
+
 def judge_c07(s, r):
     err = r["stderr"].decode("latin-1")
     if "Sanitizer" in err or "runtime error" in err or r["exit"] == 99:
@@ -129,6 +168,10 @@ def run_c07(run_, rng, tier):
         elif impl[i] != model[i]:
             mism.append((i, "L1 (sanitizer flavour)", dict(case=c, impl=impl[i], model=model[i])))
     scns = l2_scenarios(rng, 400 if q else 8000)
+    for t in extreme_range_texts(rng, 150 if q else 3000):
+        o = dict(rng.choice([{"f": 1}, {"f": 1, "v": 1}, {"t": 1}, {"f": 1, "R": 1}, {"f": 1, "dry": 1, "v": 1}, {"N": 1, "v": 1}]))
+        o["i"] = "p.diff"; o["file"] = "f"
+        scns.append(dict(tree={"f": ("R", 0o644, rng.choice([b"x\n", b"a\nc\n", b"", b"l0\nl1\nl2\n"])), "p.diff": ("R", 0o644, t)}, opts=o, umask=0o022, env=SAN_ENV))
     _, b2, m2 = l2_family(run_, exe, scns, judge_c07, cls=lambda s, r: "L2 exit %d" % r["exit"], timeout=30)
     return bad + b2, mism + m2
 
